@@ -9,9 +9,10 @@ TRUSTED = [
     "Active.Suicide / Sealed.Suicide / removeFractionFiles, loader classification, shrinkSizes, NewSealed fast path "
     "(tied to /repo by the correspondence run, not verified code)",
     "hand-written models of the extension: ModelPar.v (the whole directory: per retention pass ONE goroutine deleting its outsiders one after "
-    "another, oldest first - the code after fix 14be38b -, several passes in flight, background seal/Release goroutines, scheduler choices, "
-    "crash after any operation of any goroutine, interruptible loader; each fraction is a Model.st; drun_v0 = one goroutine per outsider, the "
-    "code before the fix), ModelUse.v "
+    "another, oldest first, and only after the goroutine of the previous pass has finished - the code after fixes 14be38b and bd65f76 -, any "
+    "number of passes in flight, background seal/Release goroutines, scheduler choices, crash after any operation of any goroutine, "
+    "interruptible loader; each fraction is a Model.st; drun_v1 = pass goroutines independent of each other (before bd65f76), drun_v0 = one "
+    "goroutine per outsider (before 14be38b)), ModelUse.v "
     "(use lock of a fraction: RLock / flag check / provider release of readers against Lock, set flag, Unlock, renames and removals of "
     "Suicide), ModelPL.v (.frac-cache save as create-temp / write / rename WITHOUT any fsync, power loss = lost not-yet-synced renames "
     "+ every file cut to any length; .del renames and removals without directory sync) - tied to /repo by the classes par:*, use:*, "
@@ -28,10 +29,9 @@ TRUSTED = [
 ASSUME = [
     "one fraction's files are only touched by that fraction's own life-cycle steps (fractions are independent on disk; made explicit by ModelPar.v: "
     "a directory event changes exactly one component)",
-    "for 'oldest first in every crash state' (C15_parallel_retention_prefix_at_restart / _prefix_eventually): ONE retention pass in flight on a "
-    "directory of clean fractions; with two passes in flight (the first one's goroutine still waiting for a reader or a seal when the next "
-    "maintenance step starts another) a newer fraction can be deleted first: C15_parallel_retention_overlapping_passes_refuted, replayed on the "
-    "real code by the counter overlap_candidate_older_served_newer_gone (candidate finding, reported)",
+    "for 'oldest first in every crash state' (C15_parallel_retention_prefix_at_restart, C15_retention_prefix_any_number_of_passes): the directory "
+    "consists of clean fractions with documents (idle sealed / idle active) when the first pass starts; a Suicide blocked by a reader or a seal is "
+    "modelled as a pass goroutine that is not scheduled",
     "the manager's list is in creation order when a retention pass runs (seals finish in creation order; otherwise the restart lists a younger "
     "sealed fraction before an older unsealed one: C15_load_order_unordered_refuted)",
     "sizes reported by Info do not change during one retention pass",
